@@ -4443,7 +4443,11 @@ Case_BaseLdurStur:
             goto InvalidImmediate;
           imm8 = uint32_t(imm64);
 
-          if (size_op.size() == 2) {
+          // A replicated pattern is reduced to a smaller element size only when no shift is given, because the shift
+          // amounts depend on the element size - 'movi v0.4s, #0, lsl #8' is a valid instruction.
+          bool reducible = !(o2.is_imm() && o2.as<Imm>().value() != 0);
+
+          if (size_op.size() == 2 && reducible) {
             if ((imm8 >> 16) == (imm8 & 0xFFFFu)) {
               imm8 >>= 16;
               size_op.decrement_size();
@@ -4454,7 +4458,7 @@ Case_BaseLdurStur:
             if (imm8 > 0xFFFFu)
               goto InvalidImmediate;
 
-            if ((imm8 >> 8) == (imm8 & 0xFFu)) {
+            if (reducible && (imm8 >> 8) == (imm8 & 0xFFu)) {
               imm8 >>= 8;
               size_op.decrement_size();
             }
